@@ -618,3 +618,337 @@ def check_termination(ix, rep, classes, rule='R-TERM'):
             else:
                 rep.ok(rule, f.module.rel, f.qual, 'shape', 'no loop; recursion only into child contexts', f.node.lineno)
     return n
+
+
+# ================================================================================================= C15
+ALIASES = {  # the property's table: operator -> spellings
+    'AlwaysOperator': {'always', 'G'}, 'EventuallyOperator': {'eventually', 'F'}, 'UntilOperator': {'until', 'U'},
+    'UnlessOperator': {'unless', 'W'}, 'SinceOperator': {'since', 'S'}, 'OnceOperator': {'once', 'O'},
+    'HistoricallyOperator': {'historically', 'H'}, 'NextOperator': {'next', 'X'}, 'PreviousOperator': {'prev', 'Y'},
+    'StrongNextOperator': {'s_next', 'sX'}, 'StrongPreviousOperator': {'s_prev', 'sY'}, 'NotOperator': {'not', '!'},
+    'AndOperator': {'and', '&'}, 'OrOperator': {'or', '|'}, 'ImpliesOperator': {'implies', '->'}, 'IffOperator': {'iff', '<->'},
+}
+
+
+def check_aliases(ix, rep, grammars, rule='R-GRAM'):
+    lx = grammars['LtlLexer']
+    views = {}
+    for tag, modn in (('stl', 'rtamt.antlr.parser.stl.LtlLexer'), ('ltl', 'rtamt.antlr.parser.ltl.LtlLexer')):
+        m = ix.module(modn)
+        rep.unit(m.rel)
+        views[tag] = GP.token_spellings(m)
+    n = 0
+    for tok, want in sorted(ALIASES.items()):
+        g = lx.token_literals(tok)
+        n += 1
+        if g != want:
+            rep.fail(rule, 'rtamt/antlr/grammar/tl/LtlLexer.g4', tok, 'alias:grammar', 'the lexer grammar gives %s the spellings %s; the documented aliases are %s'
+                     % (tok, sorted(g) if g else g, sorted(want)))
+        else:
+            rep.ok(rule, 'rtamt/antlr/grammar/tl/LtlLexer.g4', tok, 'alias:grammar', '%s' % sorted(want))
+        for tag, sp in views.items():
+            got = sp.get(tok)
+            if got != want:
+                rep.fail(rule, 'rtamt/antlr/parser/%s/LtlLexer.py' % tag, tok, 'alias:generated-%s' % tag,
+                         'the generated %s lexer accepts %s for %s; the documented aliases are %s (generated lexer out of date with the grammar?)'
+                         % (tag, sorted(got) if got else got, tok, sorted(want)))
+            else:
+                rep.ok(rule, 'rtamt/antlr/parser/%s/LtlLexer.py' % tag, tok, 'alias:generated-%s' % tag, 'automaton accepts exactly %s' % sorted(want))
+    # no other token steals an alias spelling with higher priority (earlier rule, same text)
+    spell = views['stl']
+    order = GP.lexer_atn(ix.module('rtamt.antlr.parser.stl.LtlLexer'))[1]
+    for tok, want in ALIASES.items():
+        for s in want:
+            for other in order[:order.index(tok)]:
+                so = spell.get(other)
+                if so and s in so and other not in lx.fragments:
+                    rep.fail(rule, 'rtamt/antlr/grammar/tl/LtlLexer.g4', tok, 'alias-shadow:%s' % s, 'the spelling %r of %s is also matched by the earlier token %s, which wins' % (s, tok, other))
+    return n
+
+
+def check_textfree(ix, rep, classes, grammars, rules, rule='R-TEXTFREE'):
+    """the AST builder inspects token text only for single-spelling tokens / identifiers / literals, and its text comparisons are
+    exhaustive over the sub-rule's alternatives"""
+    lx = grammars['LtlLexer']
+    multi = {t for t in lx.rules if (lx.token_literals(t) or set()) and len(lx.token_literals(t)) > 1}
+    n = 0
+    for cls in classes:
+        for name, f in sorted(cls.methods.items()):
+            ctxp = f.node.args.args[1].arg if len(f.node.args.args) > 1 else None
+            for c in ast.walk(f.node):
+                if isinstance(c, ast.Call) and isinstance(c.func, ast.Attribute) and c.func.attr == 'getText':
+                    tgt = c.func.value
+                    # ctx.X().getText() or ctx.X(i).getText()
+                    if isinstance(tgt, ast.Call) and isinstance(tgt.func, ast.Attribute):
+                        acc = tgt.func.attr
+                        n += 1
+                        rep.analysed(f)
+                        rep.unit(f.module.rel)
+                        slot = '%s:%s.getText' % (name, acc)
+                        if acc in multi:
+                            rep.fail(rule, f.module.rel, f.qual, slot, 'the builder reads the text of token %s, which has several spellings %s: aliases would build '
+                                     'different trees' % (acc, sorted(lx.token_literals(acc))), c.lineno)
+                            continue
+                        if acc in rules:
+                            # a sub-rule: the text is one of the alternatives' spellings; comparisons must be exhaustive
+                            alts = []
+                            for a in rules[acc]:
+                                toks = [e.value for e, _ in a.flat() if e.kind == 'token']
+                                sp = set()
+                                for t in toks:
+                                    lit = lx.token_literals(t)
+                                    if lit is None:
+                                        sp = None
+                                        break
+                                    sp |= lit
+                                alts.append(sp)
+                            if any(a is None for a in alts):
+                                rep.ok(rule, f.module.rel, f.qual, slot, 'free text (identifier/literal/type name)', c.lineno)
+                                continue
+                            if any(len(a) > 1 for a in alts):
+                                rep.fail(rule, f.module.rel, f.qual, slot, 'sub-rule %s has an alternative with several spellings' % acc, c.lineno)
+                                continue
+                            rep.ok(rule, f.module.rel, f.qual, slot, 'sub-rule with single-spelling alternatives %s' % sorted(x for a in alts for x in a), c.lineno)
+                        else:
+                            rep.ok(rule, f.module.rel, f.qual, slot, 'single-spelling token or free text', c.lineno)
+    return n
+
+
+def check_text_comparisons(ix, rep, grammars, rules, rule='R-TEXTFREE'):
+    """if/elif chains comparing operator text cover the alternatives of the sub-rule with at most one default"""
+    lx = grammars['LtlLexer']
+    ltl, stl, absast = parser_classes(ix)
+    targets = {'visitExprAddSub': 'addsubOp', 'visitExprMultDiv': 'multdivOp', 'str_to_op_type': 'comparisonOp'}
+    for name, sub in targets.items():
+        f = ix.resolve_method(stl, name)
+        if f is None:
+            raise AnalysisError('%s vanished' % name)
+        rep.analysed(f)
+        spell = []
+        for a in rules[sub]:
+            for e, _ in a.flat():
+                if e.kind == 'token':
+                    spell.append(sorted(lx.token_literals(e.value))[0])
+        compared = {}
+        chain = [s for s in f.node.body if isinstance(s, ast.If)]
+        if not chain:
+            raise AnalysisError('%s: no comparison chain' % f.where)
+        n = chain[0]
+        default_seen = False
+        order = []
+        while True:
+            strs = [c.value for c in ast.walk(n.test) if isinstance(c, ast.Constant) and isinstance(c.value, str)]
+            built = _what(n.body)
+            for s in strs:
+                compared[s] = built
+            order.append((strs, built))
+            if len(n.orelse) == 1 and isinstance(n.orelse[0], ast.If):
+                n = n.orelse[0]
+            else:
+                default = _what(n.orelse)
+                break
+        rest = [s for s in spell if s not in compared]
+        slot = '%s:exhaustive' % name
+        if len(rest) <= 1 and (rest == [] or default is not None):
+            rep.ok(rule, f.module.rel, f.qual, slot, 'comparisons %s + default cover the alternatives %s of %s' % (sorted(k for k in compared if k in spell), spell, sub), f.node.lineno)
+        else:
+            rep.fail(rule, f.module.rel, f.qual, slot, 'alternatives %s of %s fall into one default arm' % (rest, sub), f.node.lineno)
+        # each spelling maps to the right constructor / enum member
+        want = {'+': 'Addition', '-': 'Subtraction', '*': 'Multiplication', '/': 'Division',
+                '<': 'LESS', '<=': 'LEQ', '>=': 'GEQ', '>': 'GREATER', '==': 'EQUAL', '!==': 'NEQ'}
+        for s in spell:
+            got = compared.get(s, default)
+            if got == want[s]:
+                rep.ok(rule, f.module.rel, f.qual, '%s:%s' % (name, s), '%r -> %s' % (s, got), f.node.lineno)
+            else:
+                rep.fail(rule, f.module.rel, f.qual, '%s:%s' % (name, s), 'operator text %r builds %s, expected %s' % (s, got, want[s]), f.node.lineno)
+
+
+def _what(stmts):
+    for st in stmts:
+        for c in ast.walk(st):
+            if isinstance(c, ast.Call) and isinstance(c.func, ast.Name) and c.func.id[:1].isupper():
+                return c.func.id
+            if isinstance(c, ast.Return) and isinstance(c.value, ast.Attribute):
+                return c.value.attr
+    return None
+
+
+def check_builder_shape(ix, rep, rule='R-GRAM'):
+    """visitInterval ignores the separator; visitExprParen returns the child's result; visitAssertion defaults the head to `out`"""
+    ltl, stl, absast = parser_classes(ix)
+    f = stl.methods['visitInterval']
+    acc = {c.func.attr for c in ast.walk(f.node) if isinstance(c, ast.Call) and isinstance(c.func, ast.Attribute) and isinstance(c.func.value, ast.Name)
+           and c.func.value.id == f.node.args.args[1].arg}
+    if acc == {'intervalTime'}:
+        rep.ok(rule, f.module.rel, f.qual, 'separator', 'only intervalTime(0/1) is read: "," and ":" build the same interval', f.node.lineno)
+    else:
+        rep.fail(rule, f.module.rel, f.qual, 'separator', 'visitInterval reads %s: the separator must not influence the interval' % sorted(acc - {'intervalTime'}), f.node.lineno)
+    for meth in ('visitExprParen', 'visitExpr'):
+        g = ix.resolve_method(stl, meth)
+        body = D.first_stmts(g)
+        ok = len(body) == 1 and isinstance(body[0], ast.Return) and D._self_call(body[0].value) == 'visit' \
+            and ast.unparse(body[0].value.args[0]) == '%s.expression()' % g.node.args.args[1].arg
+        if ok:
+            rep.ok(rule, g.module.rel, g.qual, 'transparent', 'returns the node of the enclosed expression', g.node.lineno)
+        else:
+            rep.fail(rule, g.module.rel, g.qual, 'transparent', 'redundant parentheses are not transparent: %s does not return the enclosed expression\'s node unchanged' % meth, g.node.lineno)
+    a = ix.resolve_method(stl, 'visitAssertion')
+    src = ast.unparse(a.node).replace(' ', '').replace('"', "'")
+    if "ifnotctx.Identifier():id='out'" in src.replace('\n', ''):
+        rep.ok(rule, a.module.rel, a.qual, 'default-head', "an omitted assertion head is `out`", a.node.lineno)
+    else:
+        rep.fail(rule, a.module.rel, a.qual, 'default-head', "an omitted assertion head is not defaulted to `out`", a.node.lineno)
+
+
+def check_precedence(ix, rep, grammars, rule='R-GRAM'):
+    n = 0
+    tables = {}
+    for gname, modn in (('StlParser', 'rtamt.antlr.parser.stl.StlParser'), ('LtlParser', 'rtamt.antlr.parser.ltl.LtlParser')):
+        rules = G.effective_rules(grammars, gname)
+        alts = rules['expression']
+        # binary alternatives: expression OP expression  (left-recursive on both ends)
+        binary = [a.label for a in alts if a.elems and a.elems[0].kind == 'rule' and a.elems[0].value == 'expression'
+                  and a.elems[-1].kind == 'rule' and a.elems[-1].value == 'expression']
+        m = ix.module(modn)
+        rep.unit(m.rel)
+        table = GP.precedence_table(m)
+        tables[gname] = [(c, p, r) for c, p, r in table]
+        gen_order = [c[:-len('Context')] for c, p, r in table]
+        if gen_order != binary:
+            rep.fail(rule, m.rel, gname, 'precedence:order', 'the generated parser orders the binary alternatives %s, the grammar %s (generated parser out of date?)'
+                     % (gen_order, binary))
+            continue
+        rep.ok(rule, m.rel, gname, 'precedence:order', 'binary alternatives in grammar order: %s' % ' > '.join(binary))
+        prev = None
+        for c, p, r in table:
+            n += 1
+            lab = c[:-len('Context')]
+            if prev is not None and not p < prev:
+                rep.fail(rule, m.rel, gname, 'precedence:%s' % lab, 'precedence level %d of %s is not below the preceding alternative (%d)' % (p, lab, prev))
+            elif r != p + 1:
+                rep.fail(rule, m.rel, gname, 'precedence:%s' % lab, 'right operand of %s is parsed at level %s, expected %d (left-associative)' % (lab, r, p + 1))
+            else:
+                rep.ok(rule, m.rel, gname, 'precedence:%s' % lab, 'level %d, right operand at %d (left-associative)' % (p, r))
+            prev = p
+    if 'StlParser' in tables and 'LtlParser' in tables:
+        if tables['StlParser'] == tables['LtlParser']:
+            rep.ok(rule, 'rtamt/antlr/parser/ltl/LtlParser.py', 'StlParser~LtlParser', 'precedence:agree', 'both front ends group binary operators identically')
+        else:
+            rep.fail(rule, 'rtamt/antlr/parser/ltl/LtlParser.py', 'StlParser~LtlParser', 'precedence:agree', 'the LTL and STL parsers group binary operators differently')
+    return n
+
+
+def check_ltl_front_end(ix, rep, grammars, rule='R-GRAM'):
+    """LTL builder vs STL builder on untimed formulas; accessors exist on the generated contexts; constructor arity"""
+    ltl, stl, absast = parser_classes(ix)
+    nodes = {c.name: c for c in D.node_classes(ix)}
+    ctx_of = {'ltl': GP.context_classes(ix.module('rtamt.antlr.parser.ltl.LtlParser')), 'stl': GP.context_classes(ix.module('rtamt.antlr.parser.stl.StlParser'))}
+    n = 0
+    # accessors
+    for tag, cls in (('ltl', ltl), ('stl', stl)):
+        for name, f in sorted(cls.methods.items()):
+            if not name.startswith('visit') or len(f.node.args.args) < 2:
+                continue
+            cname = name[len('visit'):] + 'Context'
+            cname = cname[0].upper() + cname[1:]
+            ctxs = ctx_of[tag]
+            if cname not in ctxs:
+                # STL methods inherited rules (Spec..): look in either
+                continue
+            ctxp = f.node.args.args[1].arg
+            for c in ast.walk(f.node):
+                if isinstance(c, ast.Call) and isinstance(c.func, ast.Attribute) and isinstance(c.func.value, ast.Name) and c.func.value.id == ctxp:
+                    acc = c.func.attr
+                    if acc in ('getText', 'getChild', 'getChildCount', 'accept'):
+                        continue
+                    n += 1
+                    if acc in ctxs[cname]['accessors']:
+                        rep.ok(rule, f.module.rel, f.qual, 'accessor:%s.%s' % (cname, acc), 'exists on the generated %s context' % tag.upper(), c.lineno)
+                    else:
+                        rep.fail(rule, f.module.rel, f.qual, 'accessor:%s.%s' % (cname, acc),
+                                 'the %s builder calls ctx.%s() but %sParser.%s has no such accessor (the %s grammar alternative has no such element): AttributeError'
+                                 % (tag.upper(), acc, tag.capitalize(), cname, tag.upper()), c.lineno)
+    # constructor arity
+    for cls in (ltl, stl):
+        for name, f in sorted(cls.methods.items()):
+            for c in ast.walk(f.node):
+                if isinstance(c, ast.Call) and isinstance(c.func, ast.Name) and c.func.id in nodes:
+                    init = ix.resolve_method(nodes[c.func.id], '__init__')
+                    a = init.node.args
+                    npos = len(a.args) - 1
+                    nreq = npos - len(a.defaults)
+                    n += 1
+                    if nreq <= len(c.args) <= npos:
+                        rep.ok(rule, f.module.rel, f.qual, 'arity:%s@%s' % (c.func.id, name), '%d arguments' % len(c.args), c.lineno)
+                    else:
+                        rep.fail(rule, f.module.rel, f.qual, 'arity:%s@%s' % (c.func.id, name), '%s(...) is called with %d arguments, its constructor takes %d..%d'
+                                 % (c.func.id, len(c.args), nreq, npos), c.lineno)
+    # untimed arm of every overridden method builds what the LTL method builds
+    for name, fs in sorted(stl.methods.items()):
+        fl = ltl.methods.get(name)
+        if fl is None or not name.startswith('visitExpr'):
+            continue
+        n += 1
+        built_ltl = _built_classes(fl.node)
+        arm = None
+        for st in fs.node.body:
+            if isinstance(st, ast.If) and 'interval' in ast.unparse(st.test):
+                r = _none_test(st.test, '%s.interval()' % fs.node.args.args[1].arg)
+                arm = st.body if r == 'none-in-body' else st.orelse if r == 'none-in-else' else None
+        if arm is None:
+            continue
+        built_stl = _built_classes(ast.Module(body=list(arm), type_ignores=[]))
+        if built_stl == built_ltl:
+            rep.ok(rule, fs.module.rel, fs.qual, 'untimed=%s' % name, 'without interval builds %s like the LTL front end' % built_ltl, fs.node.lineno)
+        else:
+            rep.fail(rule, fs.module.rel, fs.qual, 'untimed=%s' % name, 'without interval the STL builder constructs %s, the LTL builder %s' % (built_stl, built_ltl), fs.node.lineno)
+    return n
+
+
+def _built_classes(node):
+    out = []
+    for c in ast.walk(node):
+        if isinstance(c, ast.Call) and isinstance(c.func, ast.Name) and c.func.id[:1].isupper() and c.func.id not in ('Interval', 'RTAMTException'):
+            out.append('%s(%s)' % (c.func.id, ', '.join(ast.unparse(a) for a in c.args)))
+    return sorted(out)
+
+
+def check_unless_sugar(ix, rep, rule='R-GRAM'):
+    ltl, stl, absast = parser_classes(ix)
+    f = stl.methods['visitExprUnless']
+    rep.analysed(f)
+    ctxp = f.node.args.args[1].arg
+    timed = None
+    for st in f.node.body:
+        if isinstance(st, ast.If):
+            r = _none_test(st.test, '%s.interval()' % ctxp)
+            timed = st.orelse if r == 'none-in-body' else st.body if r == 'none-in-else' else None
+    if timed is None:
+        rep.fail(rule, f.module.rel, f.qual, 'unless-sugar', 'no bounded branch', f.node.lineno)
+        return
+    env = {}
+    for st in f.node.body:
+        if isinstance(st, ast.Assign) and isinstance(st.targets[0], ast.Name):
+            env[st.targets[0].id] = ast.unparse(st.value).replace(' ', '')
+    for st in timed:
+        if isinstance(st, ast.Assign) and isinstance(st.targets[0], ast.Name):
+            env[st.targets[0].id] = ast.unparse(st.value).replace(' ', '')
+
+    def expand(s, depth=0):
+        import re
+        if depth > 4:
+            return s
+        for k in sorted(env, key=len, reverse=True):
+            s = re.sub(r'(?<![\w.])%s(?![\w(])' % re.escape(k), lambda m: env[k], s) if k in ('left', 'right', 'interval_left', 'node') else s
+        return s
+    node = env.get('node', '')
+    full = expand(expand(node))
+    want = 'Disjunction(TimedAlways(child1,Interval(0,interval.end,interval.begin_unit,interval.end_unit)),TimedUntil(child1,child2,interval))'
+    c1 = env.get('child1') == 'self.visit(%s.expression(0))' % ctxp
+    c2 = env.get('child2') == 'self.visit(%s.expression(1))' % ctxp
+    iv = env.get('interval') == 'self.visit(%s.interval())' % ctxp
+    if full == want and c1 and c2 and iv:
+        rep.ok(rule, f.module.rel, f.qual, 'unless-sugar', 'phi unless[a,b] psi = always[0,b] phi or phi until[a,b] psi, units carried', f.node.lineno)
+    else:
+        rep.fail(rule, f.module.rel, f.qual, 'unless-sugar', 'bounded unless builds `%s`; the documented sugar is always[0,b] phi or phi until[a,b] psi with both units carried' % full, f.node.lineno)
